@@ -15,9 +15,17 @@
    `DLate` deadline never fires.
 
    The record [cfg] selects the code version:
-     fixed = the code after the two `fix:` commits (Recv re-polls the queue before reporting an
-             error; SetDeadline re-checks `closed` after un-expiring the channel);
+     fixed = the code after the three `fix:` commits (Recv re-polls the queue before reporting an
+             error; SetDeadline re-checks `closed` after un-expiring the channel; Close publishes
+             `closed` (CompareAndSwap) and cancels BEFORE it waits for d.m, and Recv's end-of-stream
+             exit waits for d.m too before its last poll);
+     cand  = the new Close without the barrier in Recv (a candidate repair that is refuted:
+             `c17_close_candidate_without_barrier_refuted`);
+     prev  = the code after the first two fixes only: Close takes d.m first (kept for
+             `c17_close_releases_blocked_send_original_refuted`);
      orig  = the code as found (kept for the `_refuted` witnesses and as regression cases).
+   In the fixed code `d.m.Lock(); d.m.Unlock()` (Close's last action, Recv's barrier) is ONE
+   transition enabled iff the mutex is free: the caller does nothing between the two calls.
 
    Definitions only.  Proofs: Proofs/DChanProofs.v. *)
 From Hop Require Import Base.
@@ -34,18 +42,19 @@ Inductive ret := RItem (v : N) | RErr (e : N).   (* RErr 0 = nil *)
 
 Inductive pc :=
 | Idle
-| R_closed | R_done | R_pollerr (g : nat) | R_select (g : nat) | R_err | R_repoll (e : N)
+| R_closed | R_done | R_pollerr (g : nat) | R_select (g : nat) | R_err | R_barrier | R_repoll (e : N)
 | S_closed (v : N) | S_done (v : N) | S_pollerr (v : N) (g : nat) | S_select (v : N) (g : nat) | S_err
-| C_closed | C_store | C_cancel
+| C_closed | C_store | C_cancel          (* Close, cfg prev/orig: Lock; Load; Store; Cancel *)
+| C2_cancel | C2_wait                    (* Close, cfg fixed: CAS (from Idle); Cancel; Lock+Unlock *)
 | D_set (k : dl) | D_recheck | D_recancel
 | K_cancel (e : N).
 
 Inductive opk := KRecv | KSend | KClose | KSetDl | KCancel.
 Definition kind_of_pc (p : pc) : opk :=
   match p with
-  | Idle | R_closed | R_done | R_pollerr _ | R_select _ | R_err | R_repoll _ => KRecv
+  | Idle | R_closed | R_done | R_pollerr _ | R_select _ | R_err | R_barrier | R_repoll _ => KRecv
   | S_closed _ | S_done _ | S_pollerr _ _ | S_select _ _ | S_err => KSend
-  | C_closed | C_store | C_cancel => KClose
+  | C_closed | C_store | C_cancel | C2_cancel | C2_wait => KClose
   | D_set _ | D_recheck | D_recancel => KSetDl
   | K_cancel _ => KCancel
   end.
@@ -69,9 +78,11 @@ Record sh := mkS {
   eof_seen : bool          (* some Recv has returned io.EOF *)
 }.
 
-Record cfg := mkCfg { fix_repoll : bool; fix_recheck : bool }.
-Definition fixed := mkCfg true true.
-Definition orig := mkCfg false false.
+Record cfg := mkCfg { fix_repoll : bool; fix_recheck : bool; fix_close : bool; fix_barrier : bool }.
+Definition fixed := mkCfg true true true true.
+Definition cand := mkCfg true true true false.   (* the new Close alone, Recv without the barrier: refuted *)
+Definition prev := mkCfg true true false false.
+Definition orig := mkCfg false false false false.
 
 Definition chan_closed (s : sh) (g : nat) : bool :=
   Nat.ltb g (cur s) || (Nat.eqb g (cur s) && cur_closed s).
@@ -108,9 +119,10 @@ Definition start (t : thread) (p : pc) := mkT (tl (prog t)) p (rets t).       (*
 Definition finish (t : thread) (r : ret) := mkT (prog t) Idle (rets t ++ [(kind_of_pc (tpc t), r)]).
 Definition startfin (t : thread) (k : opk) (r : ret) := mkT (tl (prog t)) Idle (rets t ++ [(k, r)]).
 
-(* Recv's error exit: the fixed code goes through recvBuffered (one more poll) *)
+(* Recv's error exit: the fixed code goes through recvBuffered (one more poll; with fix_barrier an
+   io.EOF first waits for d.m: `if e == io.EOF { d.m.Lock(); d.m.Unlock() }`) *)
 Definition recv_fail (c : cfg) (e : N) (s : sh) (t : thread) : sh * thread :=
-  if fix_repoll c then (s, goto t (R_repoll e))
+  if fix_repoll c then (if fix_barrier c && (e =? eEOF) then (s, goto t R_barrier) else (s, goto t (R_repoll e)))
   else (if e =? eEOF then set_eof s else s, finish t (RErr e)).
 
 (* one atomic action of thread [me]; [ch] = which ready case a select picks (true = errChan) *)
@@ -126,8 +138,11 @@ Definition tstep (c : cfg) (me : nat) (ch : bool) (s : sh) (t : thread) : option
       end
     | OSend v :: _ =>                                 (* d.m.Lock() *)
       match mu s with None => Some (set_mu s (Some me), start t (S_closed v)) | Some _ => None end
-    | OClose :: _ =>                                  (* d.m.Lock() *)
-      match mu s with None => Some (set_mu s (Some me), start t C_closed) | Some _ => None end
+    | OClose :: _ =>
+      if fix_close c then                             (* if !d.closed.CompareAndSwap(false, true) { return io.EOF } *)
+        if closed s then Some (s, startfin t KClose (RErr eEOF)) else Some (set_closed s, start t C2_cancel)
+      else                                            (* d.m.Lock() *)
+        match mu s with None => Some (set_mu s (Some me), start t C_closed) | Some _ => None end
     | OSetDl k :: _ =>                                (* if d.closed.Load() { return io.EOF } *)
       if closed s then Some (s, startfin t KSetDl (RErr eEOF)) else Some (s, start t (D_set k))
     | OCancel e :: _ =>
@@ -144,6 +159,8 @@ Definition tstep (c : cfg) (me : nat) (ch : bool) (s : sh) (t : thread) : option
          | None => None
          end
   | R_err => Some (recv_fail c (derr s) s t)                             (* d.deadline.Err() *)
+  | R_barrier =>                                                         (* d.m.Lock(); d.m.Unlock() *)
+    match mu s with None => Some (s, goto t (R_repoll eEOF)) | Some _ => None end
   | R_repoll e =>                                                        (* recvBuffered *)
     match pop me s with
     | Some (v, s') => Some (s', finish t (RItem v))
@@ -163,6 +180,9 @@ Definition tstep (c : cfg) (me : nat) (ch : bool) (s : sh) (t : thread) : option
   | C_closed => if closed s then Some (set_mu s None, finish t (RErr eEOF)) else Some (s, goto t C_store)
   | C_store => Some (set_closed s, goto t C_cancel)
   | C_cancel => Some (set_mu (d_cancel eEOF s) None, finish t (RErr eNil))
+  (* ---- Close, fixed: closed already published by the CAS; does not hold d.m ---- *)
+  | C2_cancel => Some (d_cancel eEOF s, goto t C2_wait)
+  | C2_wait => match mu s with None => Some (s, finish t (RErr eNil)) | Some _ => None end
   (* ---- SetDeadline ---- *)
   | D_set k =>
     if fix_recheck c then Some (d_setdl k s, goto t D_recheck) else Some (d_setdl k s, finish t (RErr eNil))
@@ -248,9 +268,10 @@ Fixpoint subseq (a b : list N) : Prop :=
 Definition pcfuel (p : pc) : nat :=
   match p with
   | Idle => 0
-  | R_closed => 6 | R_done => 5 | R_pollerr _ => 4 | R_select _ => 3 | R_err => 2 | R_repoll _ => 1
+  | R_closed => 7 | R_done => 6 | R_pollerr _ => 5 | R_select _ => 4 | R_err => 3 | R_barrier => 2 | R_repoll _ => 1
   | S_closed _ => 5 | S_done _ => 4 | S_pollerr _ _ => 3 | S_select _ _ => 2 | S_err => 1
   | C_closed => 3 | C_store => 2 | C_cancel => 1
+  | C2_cancel => 2 | C2_wait => 1
   | D_set _ => 5 | D_recheck => 2 | D_recancel => 1
   | K_cancel _ => 1
   end.
@@ -268,7 +289,7 @@ Definition all_finished (x : st) : bool := forallb (fun t => negb (unfinished t)
 
 (* pcs from which a thread is never blocked and which re-establish "cancelled" after close *)
 Definition helper_pc (p : pc) : bool :=
-  match p with C_cancel | D_recheck | D_recancel => true | _ => false end.
+  match p with C_cancel | C2_cancel | D_recheck | D_recancel => true | _ => false end.
 Definition lock_pc (p : pc) : bool :=
   match p with
   | S_closed _ | S_done _ | S_pollerr _ _ | S_select _ _ | S_err | C_closed | C_store | C_cancel => true
